@@ -20,7 +20,7 @@ impl Prop for C16 {
         "C16"
     }
     fn rule(&self) -> &'static str {
-        "batches of generated programs (well-typed G-prog programs and ill-typed / multi-error mutants); each program is rendered to (value | diagnostics text via emit_string, type text) in five contexts: a fresh VM, a second fresh VM, a long-lived VM in batch order, a long-lived VM in permuted order, and a separate process (other address-space layout, other hash seeds) in permuted order; all renderings must be byte-identical; non-trivial = the program has a non-literal result or a diagnostic; distinct = program text"
+        "batches of generated programs (well-typed G-prog programs and ill-typed / multi-error mutants); each program is rendered to (value | diagnostics text via emit_string, type text) in five contexts: a fresh VM, a second fresh VM, a long-lived VM in batch order, a long-lived VM in permuted order, and a separate process (other address-space layout, other hash seeds) in permuted order; all renderings must be byte-identical; in addition every program is compiled under ONE shared module name on a long-lived VM (the texts one after the other, then the first four again: A, B, ..., A) and must render as on a fresh VM under that name; non-trivial = the program has a non-literal result or a diagnostic; distinct = program text"
     }
     fn assumptions(&self) -> Vec<String> {
         vec!["entropy sources varied: address-space layout and std's per-process hash seeds (separate process), VM history, evaluation order".into()]
@@ -63,6 +63,19 @@ fn render_one(vm: &Thread, name: &str, src: &str) -> String {
         // panic site takes part in the comparison
         Err((loc, _)) => format!("PANIC {}", crate::worker::strip_repo(&loc)),
     }
+}
+
+/// erases the numeric suffix of generated `implicit?N` binder names
+fn mask_implicit(s: &str) -> String {
+    let mut out = String::new();
+    let mut rest = s;
+    while let Some(p) = rest.find("implicit?") {
+        out.push_str(&rest[..p + 9]);
+        rest = rest[p + 9..].trim_start_matches(|c: char| c.is_ascii_digit());
+        out.push('N');
+    }
+    out.push_str(rest);
+    out
 }
 
 fn mk(prelude: bool) -> gluon::RootedThread {
@@ -194,7 +207,41 @@ impl Worker for W {
                 r.stat("separate_process_spawn_failed", 1);
             }
         }
-        r.stat("programs_rendered", n as u64).stat("contexts_compared", ctx.len() as u64);
+        // contexts 6-8: every program under ONE module name. Baseline: a fresh VM per program;
+        // then a long-lived VM that sees the texts one after the other under that name, and
+        // finally the first few texts again (A, B, ..., A): what was compiled earlier under a
+        // name must not influence what the same text gives later
+        {
+            let shared = "c16_shared";
+            let mut base = Vec::new();
+            for i in 0..n {
+                let vm = mk(prelude);
+                base.push(render_one(&vm, shared, &progs[i]));
+            }
+            let mut vm = mk(prelude);
+            let mut seq: Vec<usize> = order.clone();
+            seq.extend(order.iter().take(4).cloned());
+            for (k, i) in seq.iter().enumerate() {
+                let got = render_one(&vm, shared, &progs[*i]);
+                r.stat("same_name_renderings", 1);
+                if got.starts_with("PANIC") && !base[*i].starts_with("PANIC") || got != base[*i] {
+                    let (a, b) = base[*i].lines().zip(got.lines()).find(|(x, y)| x != y).map(|(x, y)| (x.to_string(), y.to_string())).unwrap_or((base[*i].chars().take(200).collect(), got.chars().take(200).collect()));
+                    let label = if k >= n { "long-lived-same-name-resubmitted" } else { "long-lived-same-name" };
+                    let kind = |s: &str| s.split(' ').next().unwrap_or("").to_string();
+                    let mut viol = CaseResult::violation(
+                        hash_str(&progs[*i]),
+                        format!("program #{} (step {} of a history under one module name) renders differently than on a fresh VM under that name:\n  {}\n  {}\nprogram:\n{}", i, k, a, b, progs[*i]),
+                        json!({"kind": "nondeterministic-rendering", "context": label, "first": kind(&base[*i]), "other": kind(&got), "differs_only_in": if mask_implicit(&base[*i]) == mask_implicit(&got) { "implicit-binder-counter" } else { "other" }}),
+                    );
+                    viol.stats = r.stats.clone();
+                    return viol;
+                }
+                if got.starts_with("PANIC") {
+                    vm = mk(prelude);
+                }
+            }
+        }
+        r.stat("programs_rendered", n as u64).stat("contexts_compared", ctx.len() as u64 + 2);
         for i in 0..n {
             let first = &ctx[0].1[i];
             if first.starts_with("VALUE") {
